@@ -125,16 +125,27 @@ def decode(b, max_pool_bytes=1 << 26):
         pos += 32
     payload = b[pos:]
     if version == 3:
-        try:
+        # the documented payload is "raw LZMA2"; what counts as such is what python's lzma.decompress accepts: one or
+        # more concatenated streams, and bytes after a complete stream that do not start another one are ignored
+        data, parts, total = payload, [], 0
+        while True:
             dec = lzma.LZMADecompressor(format=lzma.FORMAT_RAW, filters=[{"id": lzma.FILTER_LZMA2}])
-            payload = dec.decompress(payload, max_length=max_pool_bytes)
+            try:
+                res = dec.decompress(data, max_length=max_pool_bytes - total)
+            except lzma.LZMAError:
+                if parts:
+                    break
+                return Reject('format', 'lzma damaged')
+            parts.append(res)
+            total += len(res)
             if not dec.eof:
-                # truncated stream (or longer than our cap)
-                if len(payload) >= max_pool_bytes:
+                if total >= max_pool_bytes:
                     return Reject('resource', 'decompressed pool above the reference cap')
                 return Reject('format', 'lzma stream truncated')
-        except lzma.LZMAError:
-            return Reject('format', 'lzma damaged')
+            data = dec.unused_data
+            if not data:
+                break
+        payload = b''.join(parts)
     wb = w // 8
     if len(payload) % wb:
         return Reject('format', 'pool is not a whole number of words')
